@@ -59,13 +59,13 @@ static std::string shown_hex(const std::array<unsigned, 16>& s) { std::string b;
 
 static void run() {
     setup(); Args& a = W().args; Evidence& ev = W().ev;
-    for (size_t li = 0; li < REG->size(); li++) if ((int)(li % (size_t)a.nworkers) == a.worker) { Case c; c.set("kind", "bound"); c.set("lang", REG->at(li).name_en); set_current(c); std::string m = oracle(c); if (!m.empty()) { record_failure(c, m); return; } ev.enumerated["per-language word-length maxima (2048 words each)"] += 1; }
+    for (size_t li = 0; li < REG->size(); li++) if ((int)(li % (size_t)a.nworkers) == a.worker) { Case c; c.set("kind", "bound"); c.set("lang", REG->at(li).name_en); set_current(c); std::string m = oracle(c); if (!m.empty() && enum_fail(c, m)) return; ev.enumerated["per-language word-length maxima (2048 words each)"] += 1; }
     // directed witnesses: all 15 data words = the longest (even-index for word 3), every coin class; then rapidcheck over the longest-k classes
     for (size_t li = 0; li < REG->size(); li++) {
         Bounds b; std::string why; if (!bounds_of(REG->at(li), b, &why)) continue;
         for (unsigned coin = (unsigned)a.worker; coin < 2048; coin += (unsigned)a.nworkers * (a.thorough() ? 1 : 8)) {
             std::array<unsigned, 16> shown{}; for (int i = 1; i < 16; i++) shown[i] = (unsigned)b.order[0]; if (shown[2] & 1) for (int j = 0; j < 2048; j++) if (!(b.order[j] & 1)) { shown[2] = (unsigned)b.order[j]; break; }
-            Case c; c.set("kind", "witness"); c.set("lang", REG->at(li).name_en); c.set("coin", coin); c.set("shown", shown_hex(shown)); set_current(c); std::string m = oracle(c); if (!m.empty()) { record_failure(c, m); return; }
+            Case c; c.set("kind", "witness"); c.set("lang", REG->at(li).name_en); c.set("coin", coin); c.set("shown", shown_hex(shown)); set_current(c); std::string m = oracle(c); if (!m.empty() && enum_fail(c, m)) return;
         }
     }
     rc_run("c17-witnesses", a.n(3000, 200000), 100, [&]() {
